@@ -355,6 +355,35 @@ func full() bool {
 	return len(res.Failures) >= 6
 }
 
+// an isolated context created for a parent that is already done is stopped (or killed) too
+func lateIsolated(killed bool) {
+	id := fmt.Sprintf("isolated context created after its parent was %s", map[bool]string{false: "stopped without an error", true: "killed"}[killed])
+	defer func() {
+		if r := recover(); r != nil {
+			add("no-panic", id, fmt.Sprint(r))
+		}
+	}()
+	parent := contextscope.New()
+	if killed {
+		parent.Kill()
+	} else {
+		parent.Stop()
+	}
+	iso := contextscope.NewIsolated(parent)
+	select {
+	case <-iso.Done():
+	case <-time.After(3 * time.Second):
+		add("isolated-child-stops-with-parent", id, "the isolated context is not done 3 s after its creation")
+		return
+	}
+	if killed && len(iso.Errors()) == 0 {
+		add("isolated-child-stops-with-parent", id, "the parent was killed, the isolated context holds no error")
+	}
+	if !killed && len(iso.Errors()) != 0 {
+		add("isolated-child-stops-with-parent", id, fmt.Sprintf("the parent stopped without an error, the isolated context holds %v", iso.Errors()))
+	}
+}
+
 func main() {
 	flag.String("input", "", "replay: the recorded input (the bounded space is re-run)")
 	out := flag.String("out", "", "result file")
@@ -414,6 +443,10 @@ func main() {
 		}(s)
 	}
 	wg.Wait()
+	for _, k := range []bool{false, true} {
+		res.Cases++
+		lateIsolated(k)
+	}
 	res.WallS = time.Since(start).Seconds()
 	b, _ := json.MarshalIndent(res, "", " ")
 	if *out != "" {
